@@ -30,7 +30,7 @@ def other(side):
     return 'down' if side == 'up' else 'up'
 
 
-def build(rng, nunits=None, chiral_p=0.3):
+def build(rng, nunits=None, chiral_p=0.3, lead=None, chain_mark_p=0.0):
     """returns (pieces, expected, labels): pieces = list of text tokens of the main chain, each a dict
     {text, cut_after: bool possible, kind}, substituent stubs, expected {(elX, elY): 'cis'|'trans'}"""
     nunits = nunits or rng.choice([1, 1, 2])
@@ -52,7 +52,7 @@ def build(rng, nunits=None, chiral_p=0.3):
             else:
                 toks.append(['C', 'single'])
     units_left = [nunits]
-    lead = rng.choice([0, 0, 1, 2])
+    lead = rng.choice([0, 0, 1, 2]) if lead is None else lead
     chain(lead)
     for u in range(nunits):
         x, y = pool.pop(), pool.pop()
@@ -68,7 +68,14 @@ def build(rng, nunits=None, chiral_p=0.3):
         last_unit = u == nunits - 1
         tail = rng.choice([0, 0, 1, 2]) if last_unit else rng.choice([1, 2])
         # left atom
-        if has_prev:
+        # (not when that chain atom also sits on the previous double bond: pysmiles marks atoms, not bonds, and then
+        #  rejects even the uncut molecule — 'Conflicting cis/trans assignment')
+        far = u == 0 or (len(toks) >= 2 and toks[-2][0] == 'C')
+        if has_prev and toks[-1][0] == 'C' and far and rng.random() < chain_mark_p:
+            # the marked substituent is the chain atom written in front: 'C/C=' (as in CCC/C=C/F)
+            sides_left = {'C': sx}
+            left = tok_before(sx) + 'C'
+        elif has_prev:
             left = 'C(%s%s)' % (tok_after(sx), lt(x))
         else:
             form = rng.choice(['before', 'after'])
@@ -114,11 +121,16 @@ def build(rng, nunits=None, chiral_p=0.3):
     return toks, stubs, expected, labels, alts, cuts_lig
 
 
-def stereo_case(rng, swap_only=None):
-    toks, stubs, expected, labels, alts, cuts_lig = build(rng)
+def stereo_case(rng, swap_only=None, long=False):
+    """long: a chain of 9-12 carbons in front of the double bond, cut at EVERY single bond and written in chain order,
+    so that the description has more than ten fragments (coarse node keys with two digits)"""
+    if long:
+        toks, stubs, expected, labels, alts, cuts_lig = build(rng, nunits=1, chiral_p=0.0, lead=rng.randint(9, 12), chain_mark_p=0.7)
+    else:
+        toks, stubs, expected, labels, alts, cuts_lig = build(rng, chain_mark_p=0.25)
     whole = ''.join(('=' + t if i > 0 and toks[i - 1][1] == 'double' else t) for i, (t, c) in enumerate(toks))
     # choose cuts
-    mode = rng.choice(['none', 'double', 'single', 'any', 'any'])
+    mode = 'single' if long else rng.choice(['none', 'double', 'single', 'any', 'any'])
     cuts = []
     for i, (t, c) in enumerate(toks):
         if c is None:
@@ -129,9 +141,9 @@ def stereo_case(rng, swap_only=None):
             continue
         if mode == 'single' and c != 'single':
             continue
-        if rng.random() < 0.6:
+        if long or rng.random() < 0.6:
             cuts.append(i)
-    cut_stubs = [i for i in stubs if mode in ('single', 'any') and rng.random() < 0.5]
+    cut_stubs = [i for i in stubs if mode in ('single', 'any') and rng.random() < 0.5 and not long]
     frags = []          # fragment texts
     base = nx.Graph()
     cur = ''
@@ -141,8 +153,10 @@ def stereo_case(rng, swap_only=None):
     base.add_node(0)
     stub_frags = []
     right_ligand_first = False
+    strip_slash = set()
+    chain_marks = []
     for i, (t, c) in enumerate(toks):
-        text = t
+        text = t[1:] if i in strip_slash else t
         if i in cut_stubs:
             lab += 1
             text = text.replace('(C)', '[$s%d]' % lab, 1)
@@ -165,9 +179,14 @@ def stereo_case(rng, swap_only=None):
                 nxt = '[$c%d]=' % lab
                 order = 2
             else:
-                cur += '[$c%d]' % lab
+                # a slash on the cut bond is written on both sides of the cut: 'C/[$c]' + '[$c]/C=...'
+                # (the same convention as for a cut-off marked substituent: 'F/[$g]' + '[$g]/C=...')
+                slash = toks[i + 1][0][0] if i + 1 < len(toks) and toks[i + 1][0][:1] in '/\\' else ''
+                cur += slash + '[$c%d]' % lab
                 nxt = '[$c%d]' % lab
                 order = 1
+                if slash:
+                    chain_marks.append((fid + 1, fid, True))    # (owner fragment, substituent's fragment, written first)
             frags.append(cur)
             # one bond between the two fragments (its order, 1 or 2, is the descriptors'): base edge of order 1
             base.add_edge(fid, fid + 1, order=1, double=(order == 2))
@@ -176,7 +195,7 @@ def stereo_case(rng, swap_only=None):
     frags.append(cur)
     nmain = len(frags)
     lig_frags = []       # (owner main fragment, text, ligand-first-in-writing?)
-    if mode in ('single', 'any') and not right_ligand_first:
+    if mode in ('single', 'any') and not right_ligand_first and not long:
         if 'left' in cuts_lig and rng.random() < 0.35 and frags[0].startswith(toks[0][0][:cuts_lig['left'][1] + 1]):
             _, n, tk = cuts_lig['left']
             lab += 1
@@ -194,7 +213,7 @@ def stereo_case(rng, swap_only=None):
     for owner, l in stub_frags:
         frags.append('[$s%d]C' % l)
         base.add_edge(owner, len(frags) - 1, order=1)
-    lig_info = []
+    lig_info = list(chain_marks)
     for owner, text, lig_first in lig_frags:
         frags.append(text)
         base.add_edge(owner, len(frags) - 1, order=1)
@@ -218,7 +237,7 @@ def stereo_case(rng, swap_only=None):
         unlabelled = True
     names = ['F%d' % i for i in range(len(frags))]
     natural = False
-    if rng.random() < 0.3 or len(frags) == 1:
+    if long or rng.random() < 0.3 or len(frags) == 1:
         # the order in which the molecule was written
         bs = ''
         for i in range(nmain):
